@@ -43,6 +43,22 @@ CLAIMED = {
  "C17": dict(technique="Coq proof over the API machine with a heap of returned trees: a call writes only into trees it allocates itself and its result does not depend on the heap; AST obligations (fresh default NULL, no write through the formatter's argument); identity / mutate-and-reparse / snapshot oracle",
              text="Theorems C17_earlier_results_untouched, C17_mutation_cannot_leak, C17_fresh_default_null, C17_formatter_does_not_write (Props/C17.v). Oracle: no container of a result is shared with an earlier result, a module-level object or another place of the same result; every container is mutated and the statement plus a probe set re-parsed; earlier results are compared with deep snapshots after later calls; format is run on snapshots",
              design="6/C17", note="Trusted: container identity is modelled by tags and paths, not by a general heap; the scan for writes in formatting.py is syntactic (assignments / mutating method calls through a parameter)"),
+ "C06": dict(technique="Coq proofs over a char-level model of the string token regexes, single_literal / double_literal (including Python's evaluation of the triple-quoted literal) and decimal integers; differential execution of the model against the implementation's functions (exhaustive short strings); system-level literal oracle",
+             text="Theorems C06_single_quoted, C06_double_quoted (every string without backslash / CR / NUL, of any length, decodes to itself), C06_one_token (the quoted text is exactly one token whatever it contains), C06_int_exact (integers of any magnitude) in Props/C06.v. "
+                  "The model is compared with single_literal, double_literal, the live token regexes, Formatter._literal, str and parse_int on all strings to length 3-4 over a 16-symbol alphabet plus random long ones; every literal is also parsed in 5 positions x 4 entry points and formatted back",
+             design="6/C06", note="Partial: floats are decided by the oracle only (float() / repr are not modelled); strings containing backslash, CR or NUL are listed findings (literal decoding goes through ast.literal_eval)"),
+ "C07": dict(technique="Coq proofs over a char-level model of mo_dots.literal_field / split_field and the three quoted-identifier decoders (path round trip for any number of segments; the three styles decode alike); hazard table by probing every keyword-like terminal of the live grammar; differential execution",
+             text="Theorems C07_path_segments_distinguishable (split(join(escape segs)) = segs for every list of non-empty segments without U+0008), C07_double_quoted / C07_backticked / C07_bracketed (same name from every style, for names without backslash / CR / NUL), C07_quoted_segment_one_token in Props/C07.v. "
+                  "Every word-like terminal of the built grammar is formatted bare in 18 contexts x both quote characters and re-parsed; names over a 16-symbol alphabet are parsed in every style / position / dialect and placed in trees for format->parse",
+             design="6/C07", note="Partial: the formatter's quoting DECISION (VALID, is_keyword) is not modelled in Coq, it is covered by the exhaustive hazard probe and the oracle; interval / top and VALID-wider-than-IDENT_CHAR are listed findings"),
+ "C13": dict(technique="Coq proofs over models of the statement-list grammar, the result assembly of _parse and a regex-free transcription of parse_delimiters; differential execution against parse_delimiters and the grammar; script oracle",
+             text="Theorems C13_statement_list (any separators / empty statements: the statements come back in order), C13_none_single_list, C13_empty_block_skipped in Props/C13.v; the parse_delimiters model is compared with the implementation on thousands of random scripts (directives in varied case and spacing, 6 delimiters, exotic whitespace) and many_command with the grammar on all separator/statement sequences to length 6-8; "
+                  "scripts of 0-6 statements (with ';' inside literals, quoted identifiers and comments) and DELIMITER blocks must parse to the list of the individual trees",
+             design="6/C13", note="Partial: no theorem about parse_delimiters beyond its executable model (the DELIMITER pre-pass ignores quoting: a listed design limitation reachable only with a directive line inside a string)"),
+ "C14": dict(technique="Coq proof that the expression reader answers only balanced token strings, totality of the literal parse actions on clean tokens with refuted crash witnesses; mutation / deletion / truncation oracle with a time limit",
+             text="Theorems C14_accepted_is_balanced, C14_literal_actions_total_on_clean, C14_literal_crash_refuted in Props/C14.v; the model reader is compared with the implementation on balanced, unbalanced and dangling token strings. "
+                  "Oracle: for accepted statements every parenthesis / closing-quote deletion, truncation inside a bracket, dangling reserved operator or keyword, nesting to depth 25 and random token mutations across 4 dialects must give ParseException (position inside the input) or a tree, within 20 s; certainly ill-formed inputs must be rejected",
+             design="6/C14", note="Partial: termination and crash-freedom of the third-party engine on arbitrary text are searched, not proved"),
 }
 PENDING_REASON = "check not built yet in this session (planned, see DESIGN.md section 8); not claimed until its theorem and tie exist"
 ALL = ["C%02d" % i for i in range(1, 21)]
